@@ -37,7 +37,10 @@ def tau_of(fam, theta):
     return frank_tau(theta)
 
 
-def make(fam, theta):
+_SIBLINGS = []
+
+
+def make(fam, theta, as_int=False):
     """a copula of the family with the given parameter.  Every second parameter value (a fixed function of the value) is carried by
     an instance with a past: it held another parameter and answered every kind of query with it before it was given this one -
     the laws speak of the parameter the object has now"""
@@ -51,6 +54,23 @@ def make(fam, theta):
         m.fit(np.random.RandomState(5).uniform(size=(40, 2)))
         return m
     m = getattr(cb, fam)()
+    if int(abs(float(theta)) * 104729) % 3 == 0:
+        # a third of the objects have a sibling: another live object of the same family that was given its (different) parameter at
+        # about the same time and answered queries just before - what one object computed is no business of the other
+        sib = getattr(cb, fam)()
+        other = {'Clayton': 1.7, 'Gumbel': 2.2, 'Frank': 5.0 if theta > 0 else -3.0}[fam]
+        m.theta, sib.theta = float(theta), other
+        m.tau, sib.tau = float(tau_of(fam, theta)), float(tau_of(fam, other))
+        pts = np.array([[0.3, 0.6], [0.8, 0.1], [0.5, 0.5]])
+        try:
+            for f in (sib.cumulative_distribution, sib.probability_density, sib.partial_derivative):
+                f(pts.copy())
+            sib.percent_point(np.array([0.4, 0.7]), np.array([0.2, 0.9]))
+        except Exception:
+            pass
+        _SIBLINGS.append(sib)
+        del _SIBLINGS[:-4]
+        return m
     if int(abs(float(theta)) * 7919) % 2:
         other = {'Clayton': 2.5, 'Gumbel': 3.0, 'Frank': -4.0 if theta > 0 else 6.0}[fam]
         m.theta = other
@@ -67,6 +87,8 @@ def make(fam, theta):
         finally:
             np.random.set_state(st)
     m.theta = float(theta)
+    if as_int:      # a whole-number parameter may arrive as a Python or NumPy integer (assigned by hand, read from JSON)
+        m.theta = int(theta) if int(theta) % 2 else np.int64(int(theta))
     m.tau = float(tau_of(fam, theta))
     return m
 
